@@ -342,6 +342,37 @@ impl<'a> Tr<'a> {
                 };
                 let name = seg.ident.to_string();
                 let args = Self::path_generic_args(seg);
+                if p.path.segments.len() == 2 && p.path.segments[0].ident == "Self" && (name == "Err" || name == "Error") {
+                    // the associated type of the trait impl the target is in: `type Err = ParserError;`
+                    let want_trait = self.target.imp.and_then(|i| i.split_once(" for ")).map(|(t, _)| t.replace(' ', ""));
+                    let self_name = self.self_ty.clone().unwrap_or_default();
+                    let mut found: Option<syn::Type> = None;
+                    if let Ok(f) = self.reg.file(self.file) {
+                        for it in &f.items {
+                            if let syn::Item::Impl(im) = it {
+                                let tn = im.trait_.as_ref().map(|(_, p, _)| p.segments.last().map(|s| norm_tokens(s).replace(' ', "")).unwrap_or_default());
+                                let sn = match &*im.self_ty {
+                                    syn::Type::Path(p) => p.path.segments.last().map(|s| s.ident.to_string()).unwrap_or_default(),
+                                    _ => String::new(),
+                                };
+                                if tn != want_trait || sn != self_name {
+                                    continue;
+                                }
+                                for ii in &im.items {
+                                    if let syn::ImplItem::Type(ty) = ii {
+                                        if ty.ident == name.as_str() {
+                                            found = Some(ty.ty.clone());
+                                        }
+                                    }
+                                }
+                            }
+                        }
+                    }
+                    return match found {
+                        Some(t) => self.resolve_ty(&t),
+                        None => self.unsup(format!("associated type `Self::{}` not found", name)),
+                    };
+                }
                 if p.path.segments.len() == 1 {
                     if let Some(tp) = self.tparams.get(&name).cloned() {
                         return match tp {
